@@ -176,8 +176,29 @@ impl<'tcx> Cx<'tcx> {
                 Some(vec![*elem; n])
             }
             ty::Closure(_, args) => Some(args.as_closure().upvar_tys().iter().collect()),
+            // a union is represented by its canonical field (the one with the most scalar leaves); the other fields are views of it
+            ty::Adt(def, _) if def.is_union() => self.union_canonical(ty).map(|(_, t)| vec![t]),
             _ => None,
         }
+    }
+    /// (index, type) of the field of a union that represents it: the first one with the largest number of scalar leaves
+    fn union_canonical(&self, ty: Ty<'tcx>) -> Option<(usize, Ty<'tcx>)> {
+        let ty::Adt(def, args) = ty.kind() else { return None };
+        if !def.is_union() {
+            return None;
+        }
+        let mut best: Option<(usize, Ty<'tcx>, usize)> = None;
+        for (i, f) in def.non_enum_variant().fields.iter().enumerate() {
+            let ft = self.norm(f.ty(self.tcx, args));
+            if matches!(ft.kind(), ty::Adt(d, _) if d.is_union()) {
+                return None; // nested unions are not modelled
+            }
+            let n = self.leaf_count(ft);
+            if best.map(|(_, _, m)| n > m).unwrap_or(true) {
+                best = Some((i, ft, n));
+            }
+        }
+        best.map(|(i, t, _)| (i, t))
     }
     pub fn field_names(&self, ty: Ty<'tcx>) -> Option<Vec<String>> {
         match ty.kind() {
@@ -508,6 +529,12 @@ impl<'tcx> Cx<'tcx> {
                 match pe {
                     PE::F(i) => {
                         let ftys = self.field_tys(cty)?;
+                        if i == ftys.len() && i > 0 && matches!(cty.kind(), ty::Array(..)) {
+                            // one past the end of an array
+                            off += ftys.iter().map(|t| self.leaf_count(*t)).sum::<usize>();
+                            cty = ftys[0];
+                            continue;
+                        }
                         if i >= ftys.len() {
                             return None;
                         }
@@ -553,6 +580,214 @@ impl<'tcx> Cx<'tcx> {
         st.cells[p.cell].v = nv;
         Ok(())
     }
+    /// `p as *const inner`: the same address seen as another type
+    fn cast_ptr(&self, st: &State<'tcx>, mut p: Ptr<'tcx>, inner: Ty<'tcx>) -> R<Ptr<'tcx>> {
+        let cur = self.ptr_ty(st, &p)?;
+        if cur != inner {
+            if self.field_tys(inner).is_none() && matches!(inner.kind(), ty::Slice(_) | ty::Str) {
+                return Err(format!("pointer cast to unsized {:?}", inner));
+            }
+            if self.leaf_count(cur) < self.leaf_count(inner) {
+                // A pointer to element i of a flat array VIEW of a struct (`&m_as_[S; 16][i * 4..]`.as_ptr()) seen as
+                // a larger type: if the leaves [off, off + k) are exactly one sub-object of the underlying struct,
+                // the pointer designates that sub-object.
+                if let Some(q) = self.sub_object_of_view(st, &p, inner) {
+                    return Ok(q);
+                }
+                return Err(format!("bad view: {:?} as larger {:?}", cur, inner));
+            }
+            if self.leaf_count(cur) == self.leaf_count(inner) {
+                p.segs.push(Seg { view: Some(inner), path: vec![] });
+            } else {
+                // pointer to the first element(s) of a larger object (as_ptr idiom)
+                let mut q = p.clone();
+                let mut t = cur;
+                loop {
+                    if self.leaf_count(t) == self.leaf_count(inner) {
+                        break;
+                    }
+                    match self.field_tys(t) {
+                        Some(f) if !f.is_empty() => {
+                            q.segs.last_mut().unwrap().path.push(PE::F(0));
+                            t = f[0];
+                        }
+                        _ => return Err(format!("bad view: {:?} as {:?}", cur, inner)),
+                    }
+                }
+                if t != inner {
+                    q.segs.push(Seg { view: Some(inner), path: vec![] });
+                }
+                p = q;
+            }
+        }
+        Ok(p)
+    }
+
+    /// The scalar type all leaves of `t` have, if they all have the same one (`Matrix3<S>`, `[Vector2<S>; 2]`: S).
+    fn uniform_leaf(&self, t: Ty<'tcx>) -> Option<Ty<'tcx>> {
+        match self.field_tys(t) {
+            None => Some(t),
+            Some(fs) => {
+                let mut it = fs.iter();
+                let first = self.uniform_leaf(*it.next()?)?;
+                for f in it {
+                    if self.uniform_leaf(*f)? != first {
+                        return None;
+                    }
+                }
+                Some(first)
+            }
+        }
+    }
+
+    /// `p.offset(delta)` in units of the pointee.  Inside an array (or an array view) the element index moves; a pointer into
+    /// a struct whose leaves all have the pointee's scalar type (`&mut m.x.x as *mut S` for a `Matrix3<S>`, `m as *mut _ as *mut S`)
+    /// is first re-expressed as a pointer into the flat array view of the enclosing object.  One past the end is allowed
+    /// (it cannot be dereferenced: reads and writes through it fail).
+    fn offset_ptr(&self, st: &State<'tcx>, p: &Ptr<'tcx>, delta: i128) -> R<Ptr<'tcx>> {
+        if p.win.is_some() {
+            return Err("offset of a slice pointer".into());
+        }
+        let q = self.as_elem_ptr(st, p)?;
+        let mut r = q.clone();
+        let last = r.segs.last_mut().unwrap();
+        let Some(PE::F(i)) = last.path.pop() else { return Err("offset: not an element pointer".into()) };
+        let ni = i as i128 + delta;
+        let mut arr = r.clone();
+        arr.win = None;
+        let n = match self.ptr_ty(st, &arr)?.kind() {
+            ty::Array(_, n) => n.try_to_target_usize(self.tcx).ok_or("offset: array length")? as i128,
+            other => return Err(format!("offset inside {:?}", other)),
+        };
+        if ni < 0 || ni > n {
+            return Err(format!("PANIC:pointer offset {} out of the object (length {})", ni, n));
+        }
+        r.segs.last_mut().unwrap().path.push(PE::F(ni as usize));
+        Ok(r)
+    }
+
+    /// A pointer equal to `p` whose last step is an index into an array (or array view) of the pointee type.
+    fn as_elem_ptr(&self, st: &State<'tcx>, p: &Ptr<'tcx>) -> R<Ptr<'tcx>> {
+        let pointee = self.ptr_ty(st, p)?;
+        // already an element of an array of the pointee type?
+        if let Some(last) = p.segs.last() {
+            if let Some(PE::F(_)) = last.path.last() {
+                let mut parent = p.clone();
+                parent.segs.last_mut().unwrap().path.pop();
+                if let Ok(pt) = self.ptr_ty(st, &parent) {
+                    if matches!(pt.kind(), ty::Array(e, _) if *e == pointee) {
+                        return Ok(p.clone());
+                    }
+                }
+            }
+        }
+        // re-express inside the object the last segment ranges over
+        let mut base = p.clone();
+        let mut candidates = vec![];
+        // candidate enclosing objects: every prefix of the last segment's path, and the cell itself
+        loop {
+            candidates.push(base.clone());
+            let last = base.segs.last_mut().unwrap();
+            if last.path.pop().is_none() {
+                if base.segs.len() > 1 {
+                    base.segs.pop();
+                } else {
+                    break;
+                }
+            }
+        }
+        let k = self.leaf_count(pointee);
+        let leaf = self.uniform_leaf(pointee).ok_or("offset: mixed pointee")?;
+        if k == 0 {
+            return Err("offset of a pointer to a zero-sized type".into());
+        }
+        let off_p = self.ptr_offset(st, p).ok_or("offset: no layout position")?;
+        // the largest enclosing object with uniform leaves
+        for b in candidates.into_iter().rev() {
+            let Ok(bty) = self.ptr_ty(st, &b) else { continue };
+            if matches!(bty.kind(), ty::Adt(d, _) if d.is_union() || d.is_enum()) {
+                continue;
+            }
+            if self.uniform_leaf(bty) != Some(leaf) {
+                continue;
+            }
+            let n = self.leaf_count(bty);
+            let Some(off_b) = self.ptr_offset(st, &b) else { continue };
+            if off_p < off_b || n % k != 0 || (off_p - off_b) % k != 0 || off_p - off_b >= n.max(1) && n != 0 {
+                continue;
+            }
+            let mut q = b.clone();
+            let aty = Ty::new_array(self.tcx, pointee, (n / k) as u64);
+            q.segs.push(Seg { view: Some(aty), path: vec![PE::F((off_p - off_b) / k)] });
+            return Ok(q);
+        }
+        Err(format!("offset of a pointer to {:?} that is not inside a uniform object", pointee))
+    }
+
+    /// Size (`size`) or alignment of a type all of whose scalar leaves have the same type L, as a term over L: `size_leaves(n, L)` /
+    /// `align_leaves(L)`.  (n fields of one type need no padding under any layout; the alignment is that of L.)
+    fn layout_term(&self, t: Ty<'tcx>, size: bool) -> Option<T> {
+        use rustc_middle::ty::TypeVisitableExt;
+        if !t.has_non_region_param() {
+            return None; // concrete: the const evaluator knows
+        }
+        let leaf = self.uniform_leaf(t)?;
+        if !matches!(leaf.kind(), ty::Param(_)) {
+            return None;
+        }
+        let n = self.leaf_count(t);
+        let l = cstr(&format!("{:?}", leaf));
+        Some(if size { app("size_leaves", vec![cint(&n.to_string()), l]) } else { app("align_leaves", vec![l]) })
+    }
+
+    /// comparison of two layout terms over the same leaf type
+    fn layout_cmp(op: BinOp, a: T, b: T) -> Option<bool> {
+        use std::cmp::Ordering::*;
+        let ord = match (terms::get(a), terms::get(b)) {
+            (terms::Term::App(f, x), terms::Term::App(g, y)) if f == "size_leaves" && g == "size_leaves" && x.len() == 2 && y.len() == 2 && x[1] == y[1] => {
+                match (terms::get(x[0]), terms::get(y[0])) {
+                    (terms::Term::CInt(m), terms::Term::CInt(n)) => m.parse::<u64>().ok()?.cmp(&n.parse::<u64>().ok()?),
+                    _ => return None,
+                }
+            }
+            (terms::Term::App(f, x), terms::Term::App(g, y)) if f == "align_leaves" && g == "align_leaves" && x == y => Equal,
+            _ => return None,
+        };
+        Some(match op {
+            BinOp::Eq => ord == Equal,
+            BinOp::Ne => ord != Equal,
+            BinOp::Lt => ord == Less,
+            BinOp::Le => ord != Greater,
+            BinOp::Gt => ord == Greater,
+            BinOp::Ge => ord != Less,
+            _ => return None,
+        })
+    }
+
+    /// `copy(src, dst, n)`: n consecutive pointees, all read before any is written (memmove semantics)
+    fn copy_elems(&self, st: &mut State<'tcx>, src: &Ptr<'tcx>, dst: &Ptr<'tcx>, n: usize) -> R<()> {
+        if n == 0 {
+            return Ok(());
+        }
+        if n == 1 {
+            let v = self.read(st, src)?;
+            return self.write(st, dst, v);
+        }
+        if n > 64 {
+            return Err("copy of more than 64 elements".into());
+        }
+        let mut vals = vec![];
+        for i in 0..n {
+            let q = self.offset_ptr(st, src, i as i128)?;
+            vals.push(self.read(st, &q)?);
+        }
+        for (i, v) in vals.into_iter().enumerate() {
+            let q = self.offset_ptr(st, dst, i as i128)?;
+            self.write(st, &q, v)?;
+        }
+        Ok(())
+    }
+
     fn subst<X: ty::TypeFoldable<TyCtxt<'tcx>>>(&self, fr: &Frame<'tcx>, x: X) -> X {
         fr.inst.instantiate_mir_and_normalize_erasing_regions(self.tcx, self.tenv, EarlyBinder::bind(x))
     }
@@ -585,11 +820,23 @@ impl<'tcx> Cx<'tcx> {
                     }
                     other => return Err(format!("deref of non-ref {:?}", other)),
                 },
-                ProjectionElem::Field(f, _) => {
+                ProjectionElem::Field(f, fty) => {
                     if p.win.is_some() {
                         return Err("field of a slice".into());
                     }
-                    p.segs.last_mut().unwrap().path.push(PE::F(f.as_usize()))
+                    let pty = self.ptr_ty(st, &p)?;
+                    if let Some((ci, _)) = self.union_canonical(pty) {
+                        // a field of a union: the canonical field, or a view of it
+                        p.segs.last_mut().unwrap().path.push(PE::F(0));
+                        if f.as_usize() != ci {
+                            let want = self.norm(self.subst(&fr, fty));
+                            p = self.cast_ptr(st, p, want)?;
+                        }
+                    } else if matches!(pty.kind(), ty::Adt(d, _) if d.is_union()) {
+                        return Err("field of an unmodelled union".into());
+                    } else {
+                        p.segs.last_mut().unwrap().path.push(PE::F(f.as_usize()))
+                    }
                 }
                 ProjectionElem::Index(l) => match self.read(st, &ptr0(fr.locals[l.as_usize()]))? {
                     V::Int(i) => {
@@ -655,6 +902,15 @@ impl<'tcx> Cx<'tcx> {
         }
         if !evaluable {
             if let mir::Const::Unevaluated(uv, _) = cc {
+                if uv.promoted.is_none() {
+                    let path = self.tcx.def_path_str(uv.def);
+                    let which = if path.ends_with("SizedTypeProperties::SIZE") { Some(true) } else if path.ends_with("SizedTypeProperties::ALIGN") { Some(false) } else { None };
+                    if let (Some(size), Some(t)) = (which, uv.args.get(0).and_then(|a| a.as_type())) {
+                        if let Some(t) = self.layout_term(t, size) {
+                            return Ok(V::Sym(t));
+                        }
+                    }
+                }
                 if let Some(v) = self.eval_promoted(st, uv) {
                     return Ok(v);
                 }
@@ -1140,6 +1396,11 @@ impl<'tcx> Cx<'tcx> {
             }
         }
         let (ta, tb) = (self.to_term(st, a), self.to_term(st, b));
+        if let (V::Sym(_), V::Sym(_)) = (a, b) {
+            if let Some(r) = Self::layout_cmp(op, ta, tb) {
+                return V::Int(r as u128);
+            }
+        }
         let name = match op {
             Add | AddUnchecked | AddWithOverflow => "add",
             Sub | SubUnchecked | SubWithOverflow => "sub",
@@ -1196,6 +1457,36 @@ impl<'tcx> Cx<'tcx> {
                 let b = self.eval_operand(st, &ab.1)?;
                 let fr = st.frames.last().unwrap();
                 let ty = self.subst(fr, ab.0.ty(fr.body, self.tcx));
+                if let (BinOp::Offset, V::Ref(p), V::Int(k)) = (op, &a, &b) {
+                    let kty = self.subst(fr, ab.1.ty(fr.body, self.tcx));
+                    let (bits, signed) = self.int_bits(kty);
+                    let d = if signed { Self::sext(bits, *k) } else { *k as i128 };
+                    return Ok(V::Ref(self.offset_ptr(st, p, d)?));
+                }
+                if let (V::Ref(p), V::Ref(q)) = (&a, &b) {
+                    // pointers into the same object compare by layout position
+                    if p.cell == q.cell && p.win.is_none() && q.win.is_none() {
+                        if let (Some(x), Some(y)) = (self.ptr_offset(st, p), self.ptr_offset(st, q)) {
+                            let r = match op {
+                                BinOp::Eq => Some(x == y),
+                                BinOp::Ne => Some(x != y),
+                                BinOp::Lt => Some(x < y),
+                                BinOp::Le => Some(x <= y),
+                                BinOp::Gt => Some(x > y),
+                                BinOp::Ge => Some(x >= y),
+                                _ => None,
+                            };
+                            if let Some(r) = r {
+                                return Ok(V::Int(r as u128));
+                            }
+                        }
+                    }
+                    // otherwise the addresses are unknown: an opaque relation between the two pointers (never between the pointees)
+                    if matches!(op, BinOp::Eq | BinOp::Ne | BinOp::Lt | BinOp::Le | BinOp::Gt | BinOp::Ge) {
+                        let d = |p: &Ptr<'tcx>| atom(&format!("&cell{}{:?}{:?}", p.cell, p.segs.iter().map(|s| s.path.clone()).collect::<Vec<_>>(), p.win));
+                        return Ok(V::Sym(app(&format!("ptr_{:?}", op).to_lowercase(), vec![d(p), d(q)])));
+                    }
+                }
                 Ok(self.binop(st, *op, &a, &b, ty))
             }
             Rvalue::UnaryOp(op, a) => {
@@ -1231,8 +1522,26 @@ impl<'tcx> Cx<'tcx> {
                 match &**kind {
                     AggregateKind::Adt(did, variant, _, _, active) => {
                         let def = self.tcx.adt_def(*did);
-                        if active.is_some() {
-                            return Err("union aggregate".into());
+                        if let Some(active) = active {
+                            // `U { f: x }`: the canonical field holds x (seen through its own type)
+                            let fr = st.frames.last().unwrap();
+                            let uty = self.subst(fr, rv.ty(fr.body, self.tcx));
+                            let (ci, cty) = self.union_canonical(uty).ok_or("union aggregate")?;
+                            let x = fs.into_iter().next().ok_or("union aggregate without a field")?;
+                            if active.as_usize() == ci {
+                                return Ok(V::Agg(vec![x]));
+                            }
+                            let ty::Adt(udef, uargs) = uty.kind() else { return Err("union aggregate".into()) };
+                            let aty = self.norm(udef.non_enum_variant().fields[*active].ty(self.tcx, uargs));
+                            let (na, nc) = (self.leaf_count(aty), self.leaf_count(cty));
+                            if na == 0 {
+                                // `MaybeUninit { uninit: () }`
+                                return Ok(V::Agg(vec![V::Undef]));
+                            }
+                            if na == nc {
+                                return Ok(V::Agg(vec![self.review(&x, aty, cty)?]));
+                            }
+                            return Err("union aggregate through a smaller field".into());
                         }
                         if def.is_enum() {
                             Ok(V::Enum(variant.as_u32(), fs))
@@ -1240,7 +1549,30 @@ impl<'tcx> Cx<'tcx> {
                             Ok(V::Agg(fs))
                         }
                     }
-                    AggregateKind::RawPtr(..) => Err("raw pointer aggregate".into()),
+                    AggregateKind::RawPtr(pointee, _) => {
+                        // `ptr::from_raw_parts(data, metadata)`
+                        let fr = st.frames.last().unwrap();
+                        let pointee = self.subst(fr, *pointee);
+                        match (fs.first(), fs.get(1), pointee.kind()) {
+                            (Some(V::Ref(p)), Some(V::Int(len)), ty::Slice(elem)) => {
+                                // data pointer + length: the window of `len` elements starting at the element p designates
+                                let p = if self.ptr_ty(st, p)? == *elem { p.clone() } else { self.cast_ptr(st, p.clone(), *elem)? };
+                                let mut q = self.as_elem_ptr(st, &p)?;
+                                let Some(PE::F(i)) = q.segs.last_mut().unwrap().path.pop() else { return Err("raw slice pointer".into()) };
+                                let n = match self.ptr_ty(st, &q)?.kind() {
+                                    ty::Array(_, n) => n.try_to_target_usize(self.tcx).ok_or("raw slice pointer: array length")? as usize,
+                                    _ => return Err("raw slice pointer outside an array".into()),
+                                };
+                                if i + *len as usize > n {
+                                    return Err("PANIC:raw slice longer than the object".into());
+                                }
+                                q.win = Some((i, *len as usize));
+                                Ok(V::Ref(q))
+                            }
+                            (Some(V::Ref(p)), Some(V::Agg(m)), _) if m.is_empty() => Ok(V::Ref(self.cast_ptr(st, p.clone(), pointee)?)),
+                            _ => Err("raw pointer aggregate".into()),
+                        }
+                    }
                     _ => Ok(V::Agg(fs)),
                 }
             }
@@ -1251,47 +1583,7 @@ impl<'tcx> Cx<'tcx> {
                 let v = self.eval_operand(st, op)?;
                 match kind {
                     CastKind::Transmute | CastKind::PtrToPtr => match (v, ty.kind()) {
-                        (V::Ref(mut p), ty::Ref(_, inner, _)) | (V::Ref(mut p), ty::RawPtr(inner, _)) => {
-                            let cur = self.ptr_ty(st, &p)?;
-                            if cur != *inner {
-                                if self.field_tys(*inner).is_none() && matches!(inner.kind(), ty::Slice(_) | ty::Str) {
-                                    return Err(format!("pointer cast to unsized {:?}", inner));
-                                }
-                                if self.leaf_count(cur) < self.leaf_count(*inner) {
-                                    // A pointer to element i of a flat array VIEW of a struct (`&m_as_[S; 16][i * 4..]`.as_ptr()) seen as
-                                    // a larger type: if the leaves [off, off + k) are exactly one sub-object of the underlying struct,
-                                    // the pointer designates that sub-object.
-                                    if let Some(q) = self.sub_object_of_view(st, &p, *inner) {
-                                        return Ok(V::Ref(q));
-                                    }
-                                    return Err(format!("bad view: {:?} as larger {:?}", cur, inner));
-                                }
-                                if self.leaf_count(cur) == self.leaf_count(*inner) {
-                                    p.segs.push(Seg { view: Some(*inner), path: vec![] });
-                                } else {
-                                    // pointer to the first element(s) of a larger object (as_ptr idiom)
-                                    let mut q = p.clone();
-                                    let mut t = cur;
-                                    loop {
-                                        if self.leaf_count(t) == self.leaf_count(*inner) {
-                                            break;
-                                        }
-                                        match self.field_tys(t) {
-                                            Some(f) if !f.is_empty() => {
-                                                q.segs.last_mut().unwrap().path.push(PE::F(0));
-                                                t = f[0];
-                                            }
-                                            _ => return Err(format!("bad view: {:?} as {:?}", cur, inner)),
-                                        }
-                                    }
-                                    if t != *inner {
-                                        q.segs.push(Seg { view: Some(*inner), path: vec![] });
-                                    }
-                                    p = q;
-                                }
-                            }
-                            Ok(V::Ref(p))
-                        }
+                        (V::Ref(p), ty::Ref(_, inner, _)) | (V::Ref(p), ty::RawPtr(inner, _)) => Ok(V::Ref(self.cast_ptr(st, p, *inner)?)),
                         // `NonZero::new(n)`: an integer seen as Option<NonZero<_>> (0 is None), and a one-leaf wrapper seen as its integer
                         (V::Int(k), ty::Adt(d, a)) if d.is_enum() && tcx_is_option(self.tcx, d.did()) && self.leaf_count(a.type_at(0)) == 1 => {
                             if k == 0 {
@@ -1300,6 +1592,30 @@ impl<'tcx> Cx<'tcx> {
                                 let inner = a.type_at(0);
                                 let mut it = vec![V::Int(k)].into_iter();
                                 Ok(V::Enum(1, vec![self.unflatten(&mut it, inner)?]))
+                            }
+                        }
+                        // a pointer seen as a one-field wrapper of a pointer (`NonNull<T>`), and back
+                        (V::Ref(p), ty::Adt(..)) if self.field_tys(ty).is_some() && self.leaf_count(ty) == 1 => {
+                            let mut leaf = ty;
+                            while let Some(f) = self.field_tys(leaf) {
+                                leaf = *f.iter().find(|t| self.leaf_count(**t) == 1).ok_or("wrapper without a leaf")?;
+                            }
+                            if let ty::Pat(base, _) = leaf.kind() {
+                                leaf = *base; // `*const T is !null`
+                            }
+                            let p = match leaf.kind() {
+                                ty::RawPtr(inner, _) | ty::Ref(_, inner, _) => self.cast_ptr(st, p, *inner)?,
+                                _ => return Err(format!("transmute of a pointer to {:?}", ty)),
+                            };
+                            let mut it = vec![V::Ref(p)].into_iter();
+                            self.unflatten(&mut it, ty)
+                        }
+                        (v @ V::Agg(_), ty::RawPtr(inner, _) | ty::Ref(_, inner, _)) if self.leaf_count(sty) == 1 => {
+                            let mut out = vec![];
+                            self.flatten(&v, sty, &mut out);
+                            match out.into_iter().next() {
+                                Some(V::Ref(p)) => Ok(V::Ref(self.cast_ptr(st, p, *inner)?)),
+                                other => Err(format!("transmute of {:?} to a pointer", other)),
                             }
                         }
                         (V::Int(k), _) if self.field_tys(ty).is_some() && self.leaf_count(ty) == 1 => {
@@ -1394,7 +1710,12 @@ impl<'tcx> Cx<'tcx> {
                                 }
                             }
                         }
-                        Ok(V::Sym(app("discr", vec![t])))
+                        // already settled on this path by an earlier `match`
+                        let d = app("discr", vec![t]);
+                        if let Some(&(_, k)) = st.decided.iter().find(|(x, _)| *x == d) {
+                            return Ok(V::Int(k));
+                        }
+                        Ok(V::Sym(d))
                     }
                     // optimised library MIR reads the discriminant of a dead local only to `assume` it; an unknown
                     // atom keeps any real use visible (it would fork on an opaque condition)
@@ -1647,15 +1968,10 @@ impl<'tcx> Cx<'tcx> {
                         mir::NonDivergingIntrinsic::CopyNonOverlapping(c) => {
                             let r: R<()> = (|| {
                                 let cnt = self.eval_operand(&mut st, &c.count)?;
-                                if !matches!(cnt, V::Int(1)) {
-                                    return Err("copy_nonoverlapping with count != 1".to_string());
-                                }
+                                let V::Int(n) = cnt else { return Err("copy_nonoverlapping with a symbolic count".to_string()) };
                                 let (src, dst) = (self.eval_operand(&mut st, &c.src)?, self.eval_operand(&mut st, &c.dst)?);
                                 match (src, dst) {
-                                    (V::Ref(a), V::Ref(b)) => {
-                                        let v = self.read(&st, &a)?;
-                                        self.write(&mut st, &b, v)
-                                    }
+                                    (V::Ref(a), V::Ref(b)) => self.copy_elems(&mut st, &a, &b, n as usize),
                                     _ => Err("copy_nonoverlapping on non-pointers".to_string()),
                                 }
                             })();
@@ -2072,7 +2388,10 @@ impl<'tcx> Cx<'tcx> {
                     if terms::is_const(t) {
                         return Ok(Some(V::Enum(1, vec![V::Sym(t)])));
                     }
-                    return Ok(Some(V::Sym(app("numcast", vec![t]))));
+                    // (the outcome depends on the TARGET type as much as on the value: `<f64 as NumCast>::from(x)` and
+                    // `<T as NumCast>::from(x)` are different questions)
+                    let target = self_ty.map(|t| format!("{:?}", t)).unwrap_or_default();
+                    return Ok(Some(V::Sym(app("numcast", vec![t, cstr(&target)]))));
                 }
                 _ => {}
             }
@@ -2405,6 +2724,22 @@ impl<'tcx> Cx<'tcx> {
         }
         // integer intrinsics on concrete operands (index arithmetic such as `last.saturating_sub(1)`)
         if let Some(m) = pretty.strip_prefix("std::intrinsics::").or_else(|| pretty.strip_prefix("core::intrinsics::")) {
+            // bit counting on a concrete integer (`(!seen).trailing_zeros()` over a mask of fields)
+            if let (Some(V::Int(a)), Some(t0), 1) = (argv.first(), argtys.first(), argv.len()) {
+                if t0.is_integral() {
+                    let (bits, _) = self.int_bits(*t0);
+                    let x = Self::trunc(bits, *a);
+                    let r = match m {
+                        "cttz" | "cttz_nonzero" => Some(if x == 0 { bits } else { x.trailing_zeros() }),
+                        "ctlz" | "ctlz_nonzero" => Some(if x == 0 { bits } else { x.leading_zeros() - (128 - bits) }),
+                        "ctpop" => Some(x.count_ones()),
+                        _ => None,
+                    };
+                    if let Some(r) = r {
+                        return Ok(Some(V::Int(r as u128)));
+                    }
+                }
+            }
             if let (Some(V::Int(a)), Some(V::Int(b)), Some(t0)) = (argv.first(), argv.get(1), argtys.first()) {
                 if t0.is_integral() && argv.len() == 2 {
                     let (bits, signed) = self.int_bits(*t0);
@@ -2460,7 +2795,19 @@ impl<'tcx> Cx<'tcx> {
             }
         }
         if pretty == "std::intrinsics::size_of" || pretty == "core::intrinsics::size_of" || pretty == "std::mem::size_of" || pretty == "core::mem::size_of" {
+            if let Some(t) = cargs.get(0).and_then(|a| a.as_type()).and_then(|t| self.layout_term(t, true)) {
+                return Ok(Some(V::Sym(t)));
+            }
             return Ok(Some(V::Sym(app("size_of", vec![cstr(&format!("{:?}", cargs))]))));
+        }
+        if matches!(&pretty[..], "std::intrinsics::align_of" | "core::intrinsics::align_of" | "std::mem::align_of" | "core::mem::align_of") {
+            if let Some(t) = cargs.get(0).and_then(|a| a.as_type()).and_then(|t| self.layout_term(t, false)) {
+                return Ok(Some(V::Sym(t)));
+            }
+        }
+        // validity assertions of `assume_init` / `zeroed` / `uninitialized`: about the type, not about values
+        if matches!(&pretty[..], "std::intrinsics::assert_inhabited" | "core::intrinsics::assert_inhabited" | "std::intrinsics::assert_zero_valid" | "core::intrinsics::assert_zero_valid" | "std::intrinsics::assert_mem_uninitialized_valid" | "core::intrinsics::assert_mem_uninitialized_valid") {
+            return Ok(Some(V::Agg(vec![])));
         }
         let _ = dty;
         Ok(None)
